@@ -466,6 +466,15 @@ class CostExec(SymExec):
             return
         self.sel_done.add(id(call))
         p = next(k.value for k in call.keywords if k.arg == 'p')
+        # entries of the probability vector overwritten under a mask (`p[p < tiny] = 0`): a candidate that is merely unlikely on one
+        # dataset becomes impossible, and its probability ratio to a neighbouring dataset is unbounded
+        pnames = {n.id for n in ast.walk(p) if isinstance(n, ast.Name)}
+        for st in ast.walk(self.fi.node):
+            if isinstance(st, ast.Assign) and len(st.targets) == 1 and isinstance(st.targets[0], ast.Subscript) and isinstance(st.targets[0].value, ast.Name) \
+                    and st.targets[0].value.id in pnames and any(isinstance(x, ast.Compare) for x in ast.walk(st.targets[0].slice)):
+                self.problem(call, 'selection probabilities are overwritten under a mask (`%s`): truncating small probabilities to 0 makes the cost of the '
+                                   'selection unbounded' % U(st)[:60])
+                return
         pe = resolve_def(p, self)
         try:
             lexpr, how = unwrap_prob(pe, self)
